@@ -275,6 +275,18 @@ def definability_closure(clauses, support_n):
             if len(u) > len(groups[s]):
                 cands.append(u)
         if len(groups) > 1:
+            # definitions whose clauses have different (overlapping) scopes, e.g. a majority/carry gate: take, for every
+            # union of two or three scopes, all ready clauses inside that union
+            seen_u = set()
+            for r in (2, 3):
+                if len(scopes) > 12:
+                    break
+                for combo in itertools.combinations(scopes, r):
+                    u = frozenset().union(*combo)
+                    if len(u) > 8 or u in seen_u or u in groups:
+                        continue
+                    seen_u.add(u)
+                    cands.append([i for s2 in scopes if s2 <= u for i in groups[s2]])
             cands.append(idxs)
         for cand in cands:
             if _total_functional(v, [cl[i] for i in cand]):
